@@ -42,7 +42,12 @@ type MaybeNil struct {
 	Nil *Term
 }
 
-type SymStr struct{ Desc string }
+// SymStr is an opaque string; Num, when set, says the string is the decimal
+// text of that integer term.
+type SymStr struct {
+	Desc string
+	Num  *Term
+}
 
 type Iface struct {
 	T types.Type
